@@ -1,9 +1,89 @@
-(* C15 on the walker model: what a failing call leaves behind and when later calls can tell. *)
+(* C15 on the walker model: a failing call leaves no trace. *)
 From Coq Require Import List Arith Bool Lia.
 From PySMT.core Require Import DagWalk.
 From PySMT.models Require Import WalkerFail.
 From PySMT.proofs Require Import DagWalk_proofs.
 Import ListNotations.
+
+(* ------------- answers depend on memo and stack only (not on the ghost counters) ---------- *)
+Section Core.
+  Variable A : Type.
+  Variable children : nat -> list nat.
+  Variable f : nat -> list A -> option A.
+
+  Definition core (s1 s2 : st A) : Prop := mm s1 = mm s2 /\ stk s1 = stk s2.
+
+  Lemma core_refl s : core s s. Proof. split; reflexivity. Qed.
+
+  Lemma step_core s1 s2 : core s1 s2 ->
+    match step A children f s1, step A children f s2 with
+    | Cont a, Cont b => core a b
+    | Raise e a, Raise e' b => e = e' /\ core a b
+    | _, _ => False
+    end.
+  Proof.
+    destruct s1 as [m1 k1 c1 p1 l1], s2 as [m2 k2 c2 p2 l2]. intros [Hm Hk]. cbn in Hm, Hk. subst.
+    unfold step. cbn [stk mm calls pops log]. destruct k2 as [|[[|] n] r].
+    - split; reflexivity.
+    - destruct (inm A m2 n); [split; reflexivity|].
+      destruct (lookup_all A m2 (children n)) as [args|]; [|split; [reflexivity|split; reflexivity]].
+      destruct (f n args); [split; reflexivity|split; [reflexivity|split; reflexivity]].
+    - split; reflexivity.
+  Qed.
+
+  Lemma run_core : forall fuel s1 s2, core s1 s2 ->
+    match run A children f fuel s1, run A children f fuel s2 with
+    | Done a, Done b => core a b
+    | Failed e a, Failed e' b => e = e' /\ core a b
+    | OutOfFuel a, OutOfFuel b => core a b
+    | _, _ => False
+    end.
+  Proof.
+    induction fuel as [|fuel IH]; intros s1 s2 Hc; pose proof (step_core s1 s2 Hc) as Hs;
+      pose proof Hc as [Hm Hk]; cbn [run]; rewrite Hk; destruct (stk s2) as [|e r]; try exact Hc.
+    destruct (step A children f s1) as [a|e1 a], (step A children f s2) as [b|e2 b]; try contradiction.
+    - apply IH. exact Hs.
+    - exact Hs.
+  Qed.
+
+  Lemma walk_core early oneshot fuel w1 w2 root : core w1 w2 ->
+    snd (walk A children f early oneshot fuel w1 root) = snd (walk A children f early oneshot fuel w2 root) /\
+    core (fst (walk A children f early oneshot fuel w1 root)) (fst (walk A children f early oneshot fuel w2 root)).
+  Proof.
+    intros Hc. pose proof Hc as [Hm Hk]. unfold walk. rewrite Hm.
+    destruct (if early then mm w2 root else None) as [v|]; [split; [reflexivity|exact Hc]|].
+    unfold iter_walk.
+    assert (Hc0 : core (with_stk A w1 ((false, root) :: stk w1)) (with_stk A w2 ((false, root) :: stk w2))).
+    { split; cbn; [exact Hm|rewrite Hk; reflexivity]. }
+    pose proof (run_core fuel _ _ Hc0) as Hr.
+    destruct (run A children f fuel (with_stk A w1 ((false, root) :: stk w1))) as [a|e1 a|a],
+             (run A children f fuel (with_stk A w2 ((false, root) :: stk w2))) as [b|e2 b|b]; try contradiction.
+    - destruct Hr as [Hma Hka]. rewrite Hma. destruct (mm b root); destruct oneshot; cbn; (split; [reflexivity|]);
+        split; cbn; auto.
+    - destruct Hr as [<- [Hma Hka]]. destruct oneshot; cbn; (split; [reflexivity|]); split; cbn; auto.
+    - destruct Hr as [Hma Hka]. destruct oneshot; cbn; (split; [reflexivity|]); split; cbn; auto.
+  Qed.
+End Core.
+
+Section CoreCalls.
+  Variable A P : Type.
+  Variable children : nat -> list nat.
+  Variable f : P -> nat -> list A -> option A.
+  Variable early oneshot : bool.
+  Variable fuel : nat.
+
+  Lemma answers_core : forall cs w1 w2, core A w1 w2 ->
+    answers A P children f early oneshot fuel w1 cs = answers A P children f early oneshot fuel w2 cs.
+  Proof.
+    induction cs as [|c cs IH]; intros w1 w2 Hc; unfold answers; cbn; [reflexivity|].
+    unfold do_call. destruct (walk_core A children (f (fst c)) early oneshot fuel w1 w2 (snd c) Hc) as [Ha Hs].
+    destruct (walk A children (f (fst c)) early oneshot fuel w1 (snd c)) as [s1 a1].
+    destruct (walk A children (f (fst c)) early oneshot fuel w2 (snd c)) as [s2 a2]. cbn [fst snd] in *. subst a2.
+    specialize (IH s1 s2 Hs). unfold answers in IH.
+    destruct (run_calls A P children f early oneshot fuel s1 cs) as [t1 l1].
+    destruct (run_calls A P children f early oneshot fuel s2 cs) as [t2 l2]. cbn [snd] in *. rewrite IH. reflexivity.
+  Qed.
+End CoreCalls.
 
 (* ------------- persistent walkers (simplifier, type checker, oracles): one callback ------ *)
 Section Persistent.
@@ -21,27 +101,20 @@ Section Persistent.
   Local Notation answers := (answers A unit children fp early false fuel).
   Local Notation run_calls := (run_calls A unit children fp early false fuel).
 
-  (* the exact side condition under which a failing call is invisible afterwards: if the fold
-     fails at all, it fails at the root itself (every proper sub-term succeeds) *)
-  Definition root_fail_only (root : nat) : Prop :=
-    F root = None -> forall ch, In ch (children root) -> F ch <> None.
-  Definition call_ok (c : call unit) : Prop :=
-    enough_fuel children (snd c) <= fuel /\ root_fail_only (snd c).
+  (* the only requirement on a call: the loop is given enough fuel (Python has no fuel) *)
+  Definition call_ok (c : call unit) : Prop := enough_fuel children (snd c) <= fuel.
 
-  Lemma do_call_clean w c : clean w -> call_ok c -> clean (fst (do_call w c)).
+  (* ANY call, returning or raising at ANY node, leaves a clean walker whose memo has only grown *)
+  Lemma do_call_clean w c : clean w -> call_ok c ->
+    clean (fst (do_call w c)) /\ sub A (mm w) (mm (fst (do_call w c))).
   Proof.
-    intros Hc [Hfuel Hroot]. unfold WalkerFail.do_call. cbn [fst snd] in *.
-    destruct (F (snd c)) as [v|] eqn:HF.
-    - destruct (walk_ok A children children_lt f early false w (snd c) fuel v Hc Hfuel HF)
-        as (s & new & Hw & Hcl & _). rewrite Hw. exact Hcl.
-    - destruct (walk_err A children children_lt f early false w (snd c) fuel Hc Hfuel HF)
-        as (s & x & Hw & Hm & _ & Hr & HFx & _ & _ & _ & Hshape). rewrite Hw. cbn [fst].
-      destruct Hshape as [[_ Hst]|[Hne _]]; [split; assumption|].
-      exfalso. inversion Hr as [|? ch ? Hch Hr']; subst; [congruence|].
-      apply (Hroot HF ch Hch). eapply F_none_up; eauto.
+    intros Hc Hfuel. unfold WalkerFail.do_call. cbn [fst snd].
+    destruct (walk A children f early false fuel w (snd c)) as [s a] eqn:E.
+    destruct (walk_memo_inv A children children_lt f early false w (snd c) fuel s a Hc Hfuel E) as (H1 & H2 & _).
+    cbn [fst]. split; [exact H1|exact (H2 eq_refl)].
   Qed.
 
-  Lemma do_call_indep w1 w2 c : clean w1 -> clean w2 -> enough_fuel children (snd c) <= fuel ->
+  Lemma do_call_indep w1 w2 c : clean w1 -> clean w2 -> call_ok c ->
     ans_equiv (snd (do_call w1 c)) (snd (do_call w2 c)).
   Proof.
     intros H1 H2 Hfuel. unfold WalkerFail.do_call. cbn [fst snd].
@@ -60,22 +133,26 @@ Section Persistent.
     induction cs as [|c cs IH]; intros w1 w2 H1 H2 Hok; unfold WalkerFail.answers; cbn.
     - constructor.
     - inversion Hok as [|? ? Hc Hcs]; subst.
-      pose proof (do_call_clean w1 c H1 Hc) as C1. pose proof (do_call_clean w2 c H2 Hc) as C2.
-      pose proof (do_call_indep w1 w2 c H1 H2 (proj1 Hc)) as Ha.
+      pose proof (proj1 (do_call_clean w1 c H1 Hc)) as C1. pose proof (proj1 (do_call_clean w2 c H2 Hc)) as C2.
+      pose proof (do_call_indep w1 w2 c H1 H2 Hc) as Ha.
       destruct (do_call w1 c) as [s1 a1]. destruct (do_call w2 c) as [s2 a2]. cbn [fst snd] in *.
       specialize (IH s1 s2 C1 C2 Hcs). unfold WalkerFail.answers in IH.
       destruct (run_calls s1 cs) as [t1 l1]. destruct (run_calls s2 cs) as [t2 l2]. cbn [snd] in *.
       constructor; assumption.
   Qed.
 
-  (* failure_transparent, provable part: a call whose failure (if any) is at its root leaves
-     the walker in a state from which every later history answers as if the call had not been
-     made (later calls may fail too, under the same condition) *)
-  Theorem failure_transparent_partial : forall w c later, clean w -> call_ok c ->
-    Forall call_ok later ->
-    Forall2 ans_equiv (answers (fst (do_call w c)) later) (answers w later).
+  (* failure_transparent: after a call that raised (the callback failed at ANY node of the
+     traversal) the walker has an empty stack and a correct memo that has only grown, and every
+     later history answers as if the failing call had never been made *)
+  Theorem failure_transparent : forall w c w' e later, clean w -> call_ok c -> Forall call_ok later ->
+    do_call w c = (w', Err e) ->
+    stk w' = [] /\ Mok A children f (mm w') /\ sub A (mm w) (mm w') /\
+    Forall2 ans_equiv (answers w' later) (answers w later).
   Proof.
-    intros w c later Hc Hok Hl. apply transparent_seq; [apply do_call_clean; assumption|assumption|assumption].
+    intros w c w' e later Hc Hok Hl E.
+    destruct (do_call_clean w c Hc Hok) as [[Hs Hm] Hsub]. rewrite E in *. cbn [fst] in *.
+    split; [exact Hs|]. split; [exact Hm|]. split; [exact Hsub|].
+    apply transparent_seq; [split; assumption|exact Hc|exact Hl].
   Qed.
 
   (* and every later answer is the fresh-environment answer *)
@@ -88,8 +165,8 @@ Section Persistent.
       unfold WalkerFail.answers; cbn.
     - constructor.
     - inversion Hl as [|? ? Hd Hl']; subst.
-      pose proof (do_call_clean w0 d Hw0 Hd) as C1.
-      pose proof (do_call_indep w0 (init A) d Hw0 (clean_init A children f) (proj1 Hd)) as Ha.
+      pose proof (proj1 (do_call_clean w0 d Hw0 Hd)) as C1.
+      pose proof (do_call_indep w0 (init A) d Hw0 (clean_init A children f) Hd) as Ha.
       destruct (do_call w0 d) as [s1 a1]. cbn [fst snd] in *.
       specialize (IH Hl' s1 C1). unfold WalkerFail.answers in IH.
       destruct (run_calls s1 later) as [t1 l1]. cbn [snd] in *. constructor; assumption.
@@ -105,114 +182,72 @@ Section OneShot.
   Variable early : bool.
   Variable fuel : nat.
   Local Notation do_call := (do_call A P children f early true fuel).
+  Local Notation answers := (answers A P children f early true fuel).
 
   Definition pristine (w : st A) : Prop := stk w = [] /\ mm w = mempty A.
 
-  (* between calls that did not raise the table is empty and the stack is empty; a call that
-     raises at a LEAF root (nothing was memoised before the exception) keeps it so *)
+  Lemma pristine_clean w p : pristine w -> clean A children (f p) w.
+  Proof. intros [Hs Hm]. split; [exact Hs|]. rewrite Hm. apply Mok_empty. Qed.
+
+  (* ANY call, returning or raising at ANY node, leaves stack and table empty *)
   Theorem oneshot_pristine : forall w c, pristine w -> enough_fuel children (snd c) <= fuel ->
-    (F A children (f (fst c)) (snd c) = None -> children (snd c) = []) ->
     pristine (fst (do_call w c)).
   Proof.
-    intros w c [Hst Hm] Hfuel Hleaf. unfold WalkerFail.do_call.
-    assert (Hc : clean A children (f (fst c)) w).
-    { split; [exact Hst|]. rewrite Hm. apply Mok_empty. }
-    destruct (F A children (f (fst c)) (snd c)) as [v|] eqn:HF.
-    - destruct (walk_ok A children children_lt (f (fst c)) early true w (snd c) fuel v Hc Hfuel HF)
-        as (s & new & Hw & [Hs _] & Hmm & _). rewrite Hw. cbn [fst]. split; [exact Hs|].
-      (* either the early hit (impossible on an empty table: same state) or cleared *)
-      unfold DagWalk.walk in Hw. rewrite Hm in Hw. destruct early; cbn in Hw.
-      + destruct (iter_walk A children (f (fst c)) fuel w (snd c)) as [s0 [v0|e0|]]; inversion Hw; reflexivity.
-      + destruct (iter_walk A children (f (fst c)) fuel w (snd c)) as [s0 [v0|e0|]]; inversion Hw; reflexivity.
-    - destruct (walk_err A children children_lt (f (fst c)) early true w (snd c) fuel Hc Hfuel HF)
-        as (s & x & Hw & _ & _ & Hr & _ & _ & _ & _ & Hshape). rewrite Hw. cbn [fst].
-      specialize (Hleaf eq_refl).
-      assert (x = snd c).
-      { inversion Hr as [|? ch ? Hch _]; subst; [reflexivity|]. rewrite Hleaf in Hch. destruct Hch. }
-      subst x. destruct Hshape as [[_ Hs]|[Hne _]]; [|congruence]. split; [exact Hs|].
-      (* nothing was memoised: the run is  (F,root) -> (T,root) -> raise *)
-      unfold DagWalk.walk in Hw. rewrite Hm in Hw.
-      assert (Hiw : iter_walk A children (f (fst c)) fuel w (snd c) = (s, Err (ECallback (snd c)))).
-      { destruct early; cbn in Hw; destruct (iter_walk A children (f (fst c)) fuel w (snd c)) as [s0 [v0|e0|]];
-          inversion Hw; reflexivity. }
-      clear Hw. unfold DagWalk.iter_walk in Hiw. rewrite Hst in Hiw.
-      destruct fuel as [|[|k]]; cbn in Hiw.
-      * inversion Hiw.
-      * unfold DagWalk.push_with_children in Hiw. rewrite Hleaf in Hiw. cbn in Hiw. inversion Hiw.
-      * unfold DagWalk.push_with_children in Hiw. rewrite Hleaf in Hiw. cbn in Hiw.
-        rewrite Hm in Hiw. cbn in Hiw. rewrite Hleaf in Hiw. cbn in Hiw.
-        destruct (f (fst c) (snd c) []) as [v|]; cbn in Hiw.
-        { exfalso. destruct k; cbn in Hiw; unfold DagWalk.upd in Hiw; rewrite Nat.eqb_refl in Hiw; inversion Hiw. }
-        inversion Hiw. subst s. cbn. reflexivity.
+    intros w c Hp Hfuel. pose proof Hp as [Hst Hm]. unfold WalkerFail.do_call.
+    destruct (walk A children (f (fst c)) early true fuel w (snd c)) as [s a] eqn:E. cbn [fst].
+    destruct (walk_memo_inv A children children_lt (f (fst c)) early true w (snd c) fuel s a
+                (pristine_clean w (fst c) Hp) Hfuel E) as ([Hs _] & _).
+    split; [exact Hs|]. unfold walk in E. rewrite Hm in E.
+    assert (Hn : (if early then mempty A (snd c) else None) = None) by (destruct early; reflexivity).
+    rewrite Hn in E. destruct (iter_walk A children (f (fst c)) fuel w (snd c)) as [s0 a0].
+    inversion E. reflexivity.
+  Qed.
+
+  (* failure_transparent for the one-shot walker: the state after a failing call is the state
+     before it (up to the ghost counters), so every later history gives the SAME answers *)
+  Theorem failure_transparent_oneshot : forall w c w' e later, pristine w ->
+    enough_fuel children (snd c) <= fuel -> do_call w c = (w', Err e) ->
+    pristine w' /\ answers w' later = answers w later.
+  Proof.
+    intros w c w' e later Hp Hfuel E.
+    pose proof (oneshot_pristine w c Hp Hfuel) as Hp'. rewrite E in Hp'. cbn [fst] in Hp'.
+    split; [exact Hp'|]. apply answers_core. destruct Hp as [H1 H2], Hp' as [H3 H4].
+    split; [rewrite H4, H2; reflexivity|rewrite H3, H1; reflexivity].
   Qed.
 End OneShot.
 
-(* ------------- refutation of the full statement: concrete two-call histories ------------- *)
+(* ------------- the two-call histories that used to expose the defects (regression) -------- *)
 Module Witness.
   (* node 2 = op(0, 1) *)
   Definition ch (n : nat) : list nat := match n with 2 => [0; 1] | _ => [] end.
   Lemma ch_lt : forall n c, In c (ch n) -> c < n.
   Proof. intros [|[|[|n]]] c; cbn; intros H; repeat (destruct H as [<-|H]; [lia|]); destruct H. Qed.
 
-  (* (a) persistent walker (env.simplifier and the oracles): the callback raises at node 1
-     (an operator without a walk_ method).  First call: walk(2) raises.  Second call: walk(0),
-     a leaf that is fine on its own, dies with KeyError while emptying the left-over stack. *)
+  (* (a) persistent walker: the callback raises at node 1 (an operator without a walk_ method).
+     First call: walk(2) raises.  Second call: walk(0) answers as in a fresh walker
+     (before c824285: KeyError while emptying the left-over stack [(false,0); (true,2)]). *)
   Definition g (_ : unit) (n : nat) (args : list nat) : option nat :=
     if Nat.eqb n 1 then None else Some (n + list_sum args).
   Definition w1 := fst (do_call nat unit ch g true false 100 (init nat) (tt, 2)).
   Example first_call_raises : snd (do_call nat unit ch g true false 100 (init nat) (tt, 2)) = Err (ECallback 1).
   Proof. reflexivity. Qed.
-  Example residue : stk w1 = [(false, 0); (true, 2)].
+  Example no_residue : stk w1 = [].
   Proof. reflexivity. Qed.
-  Example later_after_failure : answers nat unit ch g true false 100 w1 [(tt, 0)] = [Err (EKey 2)].
+  Example later_after_failure : answers nat unit ch g true false 100 w1 [(tt, 0)] = [Ok 0].
   Proof. reflexivity. Qed.
   Example later_without_failure : answers nat unit ch g true false 100 (init nat) [(tt, 0)] = [Ok 0].
   Proof. reflexivity. Qed.
 
-  (* (b) one-shot walker (env.substituter): kwargs p select the substitution; with p = 0 the
-     callback raises at node 0 (the rebuilt node is ill-typed), after node 1 was memoised.
-     The table is not cleared; the next call, with another substitution p = 1, is answered
-     from it: a wrong VALUE, no exception. *)
+  (* (b) one-shot walker: kwargs p select the substitution; with p = 0 the callback raises at
+     node 0 after node 1 was memoised.  The table is cleared; the next call with p = 1 computes
+     its own value (before 4d718bf: the stale Ok 1). *)
   Definition h (p : nat) (n : nat) (args : list nat) : option nat :=
     if Nat.eqb p 0 && Nat.eqb n 0 then None else Some (100 * p + n + list_sum args).
   Definition v1 := fst (do_call nat nat ch h true true 100 (init nat) (0, 2)).
   Example oneshot_first_raises : snd (do_call nat nat ch h true true 100 (init nat) (0, 2)) = Err (ECallback 0).
   Proof. reflexivity. Qed.
-  Example oneshot_table_survives : mm v1 1 = Some 1 /\ stk v1 = [(true, 2)].
+  Example oneshot_table_cleared : mm v1 1 = None /\ stk v1 = [].
   Proof. split; reflexivity. Qed.
-  Example oneshot_later_stale : answers nat nat ch h true true 100 v1 [(1, 1)] = [Ok 1].
-  Proof. reflexivity. Qed.
-  Example oneshot_later_fresh : answers nat nat ch h true true 100 (init nat) [(1, 1)] = [Ok 101].
+  Example oneshot_later : answers nat nat ch h true true 100 v1 [(1, 1)] = [Ok 101].
   Proof. reflexivity. Qed.
 End Witness.
-
-(* the full-strength statement of C15 on the model ... *)
-Definition failure_transparent_stmt : Prop :=
-  forall (A P : Type) (children : nat -> list nat) (f : P -> nat -> list A -> option A)
-         (early oneshot : bool) (fuel : nat) (w w' : st A) (c : call P) (e : err) (later : list (call P)),
-    (forall n c, In c (children n) -> c < n) ->
-    stk w = [] -> mm w = mempty A ->
-    (forall d, In d (c :: later) -> enough_fuel children (snd d) <= fuel) ->
-    do_call A P children f early oneshot fuel w c = (w', Err e) ->
-    answers A P children f early oneshot fuel w' later = answers A P children f early oneshot fuel w later.
-
-(* ... is false of the faithful model, for persistent and for one-shot walkers *)
-Theorem failure_transparent_refuted : ~ failure_transparent_stmt.
-Proof.
-  intros H.
-  specialize (H nat unit Witness.ch Witness.g true false 100 (init nat) Witness.w1 (tt, 2) (ECallback 1)
-                [(tt, 0)] Witness.ch_lt eq_refl eq_refl).
-  assert (Hf : forall d, In d [(tt, 2); (tt, 0)] -> enough_fuel Witness.ch (snd d) <= 100).
-  { intros d [<-|[<-|[]]]; vm_compute; lia. }
-  specialize (H Hf eq_refl). vm_compute in H. discriminate.
-Qed.
-
-Theorem failure_transparent_refuted_oneshot :
-  exists later, answers nat nat Witness.ch Witness.h true true 100 Witness.v1 later
-                <> answers nat nat Witness.ch Witness.h true true 100 (init nat) later
-                /\ (forall a, In a (answers nat nat Witness.ch Witness.h true true 100 Witness.v1 later) ->
-                    exists v, a = Ok v).
-Proof.
-  exists [(1, 1)]. split; [vm_compute; discriminate|].
-  intros a [<-|[]]. vm_compute. eauto.
-Qed.
